@@ -59,7 +59,7 @@ fn texts(full: bool) -> Vec<String> {
 }
 
 fn numbers() -> Vec<String> {
-    ["0", "1", "18446744073709551616", "-1", "abc"].iter().map(|s| s.to_string()).collect()
+    ["0", "1", "3", "4294967296", "18446744073709551615", "18446744073709551616", "-1", "abc"].iter().map(|s| s.to_string()).collect()
 }
 
 fn chan_modestrings(full: bool) -> Vec<&'static str> {
@@ -262,6 +262,10 @@ fn session_scn(sess: Sess, full: bool, pairs: bool) -> ChatScn {
     s.slots = 4;
     s.prelude.push((2, "JOIN #z".into()));
     s.prelude.push((3, "JOIN #z".into()));
+    // bob has a nick history (one record for "bob", one for "bobby"): history-reading
+    // commands with counts below, at and above the number of records
+    s.prelude.push((1, "NICK bobby".into()));
+    s.prelude.push((1, "NICK bob".into()));
     // bystander yan is also a plain member of #c (so that lists can name two
     // different members of the actor's channel)
 
@@ -525,8 +529,57 @@ fn still_serving(_scn: &ChatScn, w: &mut World, _pre: &View, obs: &StepObs, post
     out
 }
 
+/// No crash and no deprived bystander after a contended registration (see
+/// ghost.rs): the winner of the nickname and the registered bystander keep
+/// being served whatever the refused or unfinished connection does.
+pub fn ghost(full: bool) -> ChatScn {
+    let mut s = super::ghost::ghost_scn("c05-ghost", &[crate::check::Cat::UserExistence, crate::check::Cat::Membership], full);
+    for slot in [1usize, 2] {
+        for t in ["AWAY :a", "PRIVMSG alice :x", "WHOIS bob", "MODE bob +i", "PART #x"] {
+            s.alphabet_for.push((slot, t));
+        }
+    }
+    s.after_step = Some(Box::new(|_scn, w, _pre, obs, post, goals| {
+        let mut out = vec![];
+        for slot in 0..3 {
+            if w.conns[slot].life != Life::Live || w.conns[slot].client_closed {
+                continue;
+            }
+            let registered = post.registered(slot);
+            w.take_lines(slot);
+            match w.send(slot, "PING livecheck") {
+                Err(e) => out.push(finding("stalled", format!("connection {} stalled after {:?}: {}", slot, obs.act.render(), e.0))),
+                Ok(()) => {
+                    let ls = w.take_lines(slot);
+                    if let Life::Panicked(m) = &w.conns[slot].life {
+                        out.push(finding("panic:liveness", format!("connection {} panicked on PING after {:?}: {}", slot, obs.act.render(), m)));
+                        continue;
+                    }
+                    let ok = ls.iter().any(|l| (registered && l.contains("PONG") && l.contains("livecheck")) || (!registered && l.contains(" 451 ")));
+                    if ok {
+                        goals.insert("reply-seen".into());
+                    } else if w.conns[slot].life == Life::Live {
+                        out.push(finding("unserved", format!("connection {} got no answer to PING after {:?}: {:?}", slot, obs.act.render(), ls)));
+                    }
+                }
+            }
+        }
+        out
+    }));
+    let base = s.step_oracle.take();
+    s.step_oracle = Some(Box::new(move |scn, pre, obs, post, goals| {
+        let mut out = no_crash_step(scn, pre, obs, post, goals);
+        if let Some(b) = &base {
+            out.extend(b(scn, pre, obs, post, goals));
+        }
+        out
+    }));
+    s
+}
+
 pub fn plan(quick: bool) -> Plan {
     let mut parts = vec![];
+    parts.push(Part::Bfs(Box::new(ghost(!quick)), lim(if quick { 6 } else { 7 }, 2_000_000, if quick { 20.0 } else { 600.0 })));
     for sess in SESSIONS {
         let depth = match sess {
             Sess::Unregistered => 2,
